@@ -255,4 +255,149 @@ func c14agg(c *Ctx) {
 	}
 }
 
+// c14contexts: a fresh protocol context per pod / container, and the reconciler-side extractor keeps limits without requests.
+func c14contexts(c *Ctx) {
+	r := c.R
+	r.Decides("every protocol context handed to a batch-resource setter inside a loop over pods or containers is created in that very iteration (FromReconciler does not reset a context: a reused one carries the previous pod's extended spec and response); the reconciler-side extractor copies a declared limit whether or not the same resource is also requested, and reports 'nothing declared' only when both lists are empty")
+	r.Rule("FRESH(context per iteration): in package hooks/batchresource, for every call of plugin.SetPod*/SetContainer* that lies in a loop, the context argument is a PodContext/ContainerContext allocated inside the same (innermost) loop")
+	n := 0
+	for _, fn := range c.PkgFuncs(batchHookPkg) {
+		nIn := 0
+		for _, cl := range an.Calls(fn, false) {
+			sn := an.ShortCallee(cl.Common())
+			if !strings.HasPrefix(sn, "SetPod") && !strings.HasPrefix(sn, "SetContainer") {
+				continue
+			}
+			hdr := an.InnermostLoopHeader(cl.Block())
+			if hdr == nil || len(cl.Common().Args) < 2 {
+				continue
+			}
+			n++
+			nIn++
+			ok := true
+			why := ""
+			for _, s := range cellSources(cl.Common().Args[1]) {
+				if mi, isMI := s.(*ssa.MakeInterface); isMI {
+					s = firstSource(mi.X)
+				}
+				a, isA := s.(*ssa.Alloc)
+				if !isA {
+					ok, why = false, "the context is not a fresh allocation ("+an.Path(s)+")"
+					continue
+				}
+				in := false
+				for h := an.InnermostLoopHeader(a.Block()); h != nil; {
+					if h == hdr {
+						in = true
+					}
+					// outer loops
+					var outer *ssa.BasicBlock
+					for d := h.Idom(); d != nil; d = d.Idom() {
+						if x := an.InnermostLoopHeader(d); x != nil && x != h {
+							outer = x
+							break
+						}
+					}
+					h = outer
+				}
+				if !in {
+					ok, why = false, "the context is allocated outside the loop at "+c.InstrPos(a)
+				}
+			}
+			r.Check(ok, "FRESH", sprintf("%s/context#%d", fkey(fn), nIn), c.InstrPos(cl), "a context of its own per iteration", "a protocol context is shared between iterations ("+why+"): a pod without a batch spec inherits the previous pod's spec and computed limits")
+		}
+	}
+	r.Floor("FRESH", "setter calls inside loops", n, 2)
+
+	r.Rule("PATH(extractor): in util.GetContainerTargetExtendedResources the store r.Limits[name] is guarded by the lookup in container.Resources.Limits only (not by the Requests lookup) and r.Requests[name] by the Requests lookup only; with a limit copied the function does not return nil")
+	if fn := c.Fn("pkg/util", "", "GetContainerTargetExtendedResources"); fn != nil {
+		ok, nL, nR := true, 0, 0
+		why := ""
+		for _, b := range fn.Blocks {
+			for _, in := range b.Instrs {
+				mu, isMU := in.(*ssa.MapUpdate)
+				if !isMU {
+					continue
+				}
+				p := an.Path(mu.Map)
+				var own, other string
+				switch {
+				case strings.HasSuffix(p, ".Limits"):
+					own, other = ".Resources.Limits", ".Resources.Requests"
+					nL++
+				case strings.HasSuffix(p, ".Requests"):
+					own, other = ".Resources.Requests", ".Resources.Limits"
+					nR++
+				default:
+					continue
+				}
+				hasOwn := false
+				for _, g := range an.Guards(mu) {
+					e, isE := g.Cond.(*ssa.Extract)
+					if !isE {
+						continue
+					}
+					lk, isLk := e.Tuple.(*ssa.Lookup)
+					if !isLk {
+						continue
+					}
+					lp := an.Path(lk.X)
+					if strings.HasSuffix(lp, own) && g.Truth {
+						hasOwn = true
+					}
+					if strings.HasSuffix(lp, other) {
+						ok = false
+						why = c.InstrPos(mu) + ": the copy into " + own[len(".Resources"):] + " depends on the lookup in " + other[len(".Resources"):]
+					}
+				}
+				if !hasOwn {
+					ok = false
+					why = c.InstrPos(mu) + ": not guarded by its own lookup"
+				}
+			}
+		}
+		// non-empty limits => non-nil
+		f := an.Facts{}
+		for _, b := range fn.Blocks {
+			for _, in := range b.Instrs {
+				bo, isBo := in.(*ssa.BinOp)
+				if !isBo {
+					continue
+				}
+				cl, isCl := bo.X.(*ssa.Call)
+				if !isCl || !an.IsBuiltinCall(cl, "len") || !strings.HasSuffix(an.Path(cl.Call.Args[0]), ".Limits") {
+					continue
+				}
+				if k, isC := constIntOf(bo.Y); isC && k == 0 {
+					switch bo.Op {
+					case token.LEQ, token.EQL:
+						f[bo] = an.False
+					case token.GTR, token.NEQ:
+						f[bo] = an.True
+					}
+				}
+			}
+		}
+		// from the end of the loop on (the final emptiness test)
+		nilOK := len(f) > 0
+		for _, b := range fn.Blocks {
+			for _, in := range b.Instrs {
+				if bo, isBo := in.(*ssa.BinOp); isBo && f[bo] != an.Bottom {
+					if _, has := f[bo]; has {
+						reach := an.Explore(fn, &an.Start{Block: bo.Block(), Index: instrIndex(bo)}, f, nil)
+						for _, ret := range reach.Returns() {
+							for _, alt := range reach.Alts(ret) {
+								if an.IsNilConst(alt.Results[0]) {
+									nilOK = false
+								}
+							}
+						}
+					}
+				}
+			}
+		}
+		r.Check(ok && nL == 1 && nR == 1 && nilOK, "PATH", fkey(fn)+"/limit-without-request", c.Pos(fn.Pos()), "a declared limit is kept with or without a request", sprintf("a container's declared limit can be lost (copies found: limits=%d requests=%d; %s; 'nothing declared' although a limit was copied=%v): the pod-level sum skips the container while the container level still applies its limit", nL, nR, why, !nilOK))
+	}
+}
+
 func exprString(e ast.Expr) string { return types.ExprString(e) }
